@@ -29,9 +29,9 @@ META = {
     "technique": "TLA+ reference semantics of tensordot/dot/inner/outer/vdot/matmul/einsum as integer sums of products over element "
                  "ids; TLC enumerates shapes x axes specifications x einsum subscripts and all chunkings; replay into dask + TLC "
                  "validation of recorded calls",
-    "level_text": "Small-scope exhaustive: TLC enumerates all ordered pairs of operand shapes with <= 3 axes and extents <= 3 for "
+    "level_text": "Small-scope exhaustive: TLC enumerates all ordered pairs of 6 (quick) / 8 (thorough) operand shapes with <= 3 axes and extents <= 3 for "
                   "tensordot (every axes specification: 0..3 contracted pairs in every order, negative spelling, integer axes, failing "
-                  "ones), dot, inner, outer, vdot, matmul (1-d promotion, broadcasting batch axes), and a menu of 46 einsum subscripts "
+                  "ones), dot, inner, outer, vdot, matmul (1-d promotion, broadcasting batch axes), and a menu of 44 einsum subscripts "
                   "(contractions, 3 operands, transposes/sums, traces and diagonals, ellipsis broadcasts, extent-1 broadcasts, implicit "
                   "output, NumPy errors; thorough: also with extents 2 and 3 exchanged); the TLA+ reference gives shape, content and "
                   "error and is checked against itself (tensordot/matmul/outer = the corresponding einsum). Every case is replayed on "
@@ -100,7 +100,9 @@ def np_reference(case):
 
 def run_dask(case, chunks, variant=0):
     """Apply the case to real dask arrays cut into `chunks` (one chunking per operand); -> (obs, cells or None)"""
+    import warnings
     import dask.array as da
+    warnings.simplefilter("ignore")           # PerformanceWarning (many small chunks), FutureWarning of np.inner
     op = case["op"]
     if op == "inner" and not hasattr(da, "inner"):
         return {"skip": "da.inner is not implemented by this dask (np.inner falls back to NumPy)"}, None
@@ -215,7 +217,29 @@ def features(case):
     return f
 
 
+def contracted_pairs(case):
+    """the (left extent, right extent) pairs the operation contracts"""
+    op, sh = case["op"], case["shapes"]
+    try:
+        sa, sb = sh[0], sh[1]
+        if op == "tensordot":
+            return [(sa[x], sb[y]) for x, y in zip(case["la"], case["ra"])]
+        if op == "tensordotn":
+            n = case["n"]
+            return [(sa[len(sa) - n + i], sb[i]) for i in range(n)]
+        if op in ("dot", "matmul"):
+            return [(sa[-1], sb[0] if len(sb) == 1 else sb[-2])]
+        if op == "inner":
+            return [(sa[-1], sb[-1])]
+    except (IndexError, KeyError):
+        pass
+    return []
+
+
 def classify(case, clause, chunks):
+    if clause == "ErrorExpected" and any(x != y and 1 in (x, y) for x, y in contracted_pairs(case)):
+        # one root cause: blockwise broadcasts a contracted axis of extent 1 against the other extent
+        return "%s:contracted-extent-1-broadcast" % case["op"].replace("tensordotn", "tensordot")
     zero = any(0 in c and n > 0 for s, ch in zip(case["shapes"], chunks) for c, n in zip(ch, s))
     if zero and case["op"] in ("outer", "vdot") and any(len(s) >= 2 and any(0 in c for c in ch) for s, ch in zip(case["shapes"], chunks)):
         # outer / vdot flatten their operands: reshape of an array with a zero-width chunk (not this property's code)
@@ -276,13 +300,19 @@ def _work(item):
     return res
 
 
+def procs_for(nitems):
+    """forked workers only pay off for large batches (measured: on a busy machine they are 2-3x slower than inline)"""
+    import os
+    return 1 if nitems < 20000 else min(int(os.environ.get("VERIF_PROCS", "14")), 6)
+
+
 def replay_cases(ctx, cases, chunkings, n, all_cap, zero_rate, violation, count, skip):
     items, complete = [], True
     for c in cases:
         runs, full = make_runs(c["c"], chunkings, ctx.rng, n, all_cap, zero_rate)
         complete &= full
         items.append((c["c"], c["e"], runs))
-    for (case, exp, runs), res in zip(items, pmap(_work, items, chunk=8)):
+    for (case, exp, runs), res in zip(items, pmap(_work, items, procs=procs_for(sum(len(it[2]) for it in items)), chunk=16)):
         for cl, run, detail in res:
             if cl == "GUARD":
                 raise MachineryError("TLA+ reference disagrees with NumPy on %r: numpy=%r spec=%r" % (case, detail, exp))
@@ -400,46 +430,76 @@ def first_clause(text):
     return names[0] if names else "Rejected"
 
 
-def record_and_validate(ctx, n, violation, count):
-    items = random_items(ctx.rng, n)
-    recs = [r for r in pmap(_record, items, chunk=16) if r is not None]
+def record(rng, n, prefix="r"):
+    items = random_items(rng, n)
+    items = [(prefix + it[0][1:],) + it[1:] for it in items]
+    recs = [r for r in pmap(_record, items, procs=procs_for(len(items)), chunk=64) if r is not None]
+    return items, recs
+
+
+def decide(ctx, items, recs, violation, count):
+    """code -> spec: TLC decides every record"""
     spec, cfg = ctx.model(ctx.spec("array", "TensorTrace.tla"), {})
     byitem = {it[0]: it for it in items}
-    for lo in range(0, len(recs), 4000):
-        part = recs[lo:lo + 4000]
-        rej = ctx.tlc_validate(spec, part, cfg, timeout=1800)
-        for r in part:
-            count(("rec", r["c"], r["chunks"], r["variant"]), r["obs"]["raised"] == "" and len(r["obs"]["cells"]) > 0)
-        for rid, clauses in rej.items():
-            _id, case, chunks, variant = byitem[rid]
-            violation(classify(case, first_clause(clauses[0]), chunks), "TLC rejects a recorded %s call (%s)" % (case["op"], clauses[0]),
-                      {"record": next(r for r in part if r["id"] == rid), "case": case, "clauses": clauses})
-    return recs
+
+    def go():
+        out = []
+        for lo in range(0, len(recs), 6000):
+            part = recs[lo:lo + 6000]
+            out.append((part, ctx.tlc_validate(spec, part, cfg, timeout=1800)))
+        return out
+
+    def finish(results):
+        for part, rej in results:
+            for r in part:
+                count(("rec", r["c"], r["chunks"], r["variant"]), r["obs"]["raised"] == "" and len(r["obs"]["cells"]) > 0)
+            for rid, clauses in rej.items():
+                _id, case, chunks, variant = byitem[rid]
+                violation(classify(case, first_clause(clauses[0]), chunks), "TLC rejects a recorded %s call (%s)" % (case["op"], clauses[0]),
+                          {"record": next(r for r in part if r["id"] == rid), "case": case, "clauses": clauses})
+    return go, finish
 
 
 # ------------------------------------------------------------------ the check
 def enumerate_cases(ctx, ops, shapes, mmshapes, swapped, label):
+    """-> a job for sidebyside.in_parallel returning (cases, chunkings)"""
+    import json
     spec, cfg = ctx.model(ctx.spec("array", "TensorMC.tla"),
                           {"Ops": set(ops), "Shapes": TLA(shapes), "MMShapes": TLA(mmshapes), "Swapped": swapped}, invariants=INVS)
-    cases, _ = ctx.tlc_cases(spec, cfg, label="design+cases:" + label, timeout=2400)
-    import json
-    cases.sort(key=lambda c: json.dumps(c["c"], sort_keys=True))        # TLC's dump order depends on its worker threads
-    chunkings = {tuple(c["c"]["shape"]): {"all": sorted(c["e"]["all"]), "zero": sorted(c["e"]["zero"])}
-                 for c in cases if c["c"]["op"] == "chunkings"}
-    return [c for c in cases if c["c"]["op"] != "chunkings"], chunkings
+
+    def go():
+        cases, _ = ctx.tlc_cases(spec, cfg, label="design+cases:" + label, timeout=2400)
+        cases.sort(key=lambda c: json.dumps(c["c"], sort_keys=True))        # TLC's dump order depends on its worker threads
+        chunkings = {tuple(c["c"]["shape"]): {"all": sorted(c["e"]["all"]), "zero": sorted(c["e"]["zero"])}
+                     for c in cases if c["c"]["op"] == "chunkings"}
+        return [c for c in cases if c["c"]["op"] != "chunkings"], chunkings
+    return go
+
+
+class _Rng:
+    def __init__(self, rng):
+        self.rng = rng
 
 
 def run(ctx):
-    shapes = ctx.pick("{<<2>>, <<3>>, <<2, 3>>, <<3, 2>>, <<2, 3, 2>>}",
-                      "{<<2>>, <<3>>, <<2, 3>>, <<3, 2>>, <<3, 3>>, <<2, 3, 2>>, <<3, 2, 3>>}")
-    mm = ctx.pick("{<<3>>, <<2>>, <<2, 3>>, <<3, 2>>, <<2, 2, 3>>, <<1, 3, 2>>, <<2, 3, 2>>}",
-                  "{<<3>>, <<2>>, <<2, 3>>, <<3, 2>>, <<3, 3>>, <<2, 2, 3>>, <<1, 3, 2>>, <<2, 3, 2>>, <<3, 1, 3>>, <<3, 2, 3>>}")
-    cases, chunkings = enumerate_cases(ctx, OPS, shapes, mm, not ctx.quick, "tensor")
-    items, complete = replay_cases(ctx, cases, chunkings, ctx.pick(6, 40), ctx.pick(8, 256), ctx.pick(0.15, 1.0),
+    import gc
+    from ..sidebyside import in_parallel
+    gc.collect()
+    gc.freeze()
+    shapes = ctx.pick("{<<2>>, <<3>>, <<1, 2>>, <<2, 3>>, <<3, 2>>, <<2, 3, 2>>}",
+                      "{<<2>>, <<3>>, <<1, 2>>, <<2, 3>>, <<3, 2>>, <<3, 3>>, <<2, 3, 2>>, <<3, 2, 3>>}")
+    mm = ctx.pick("{<<3>>, <<2>>, <<1, 2>>, <<2, 3>>, <<3, 2>>, <<2, 2, 3>>, <<1, 3, 2>>, <<2, 3, 2>>}",
+                  "{<<3>>, <<2>>, <<1, 2>>, <<2, 3>>, <<3, 2>>, <<3, 3>>, <<2, 2, 3>>, <<1, 3, 2>>, <<2, 3, 2>>, <<3, 1, 3>>, <<3, 2, 3>>}")
+    # the recording forks worker processes: do it before any thread exists, then run both JVMs side by side
+    ritems, recs = record(ctx.rng, ctx.pick(1200, 6000))
+    enum = enumerate_cases(ctx, OPS, shapes, mm, not ctx.quick, "tensor")
+    go, finish = decide(ctx, ritems, recs, ctx.violation, ctx.count)
+    (cases, chunkings), verdicts = in_parallel([enum, go])
+    items, complete = replay_cases(ctx, cases, chunkings, ctx.pick(6, 24), ctx.pick(8, 96), ctx.pick(0.15, 1.0),
                                    ctx.violation, ctx.count, ctx.skip)
+    finish(verdicts)
     for it in (items[0], items[len(items) // 2], items[-1]):
         ctx.sample({"case": it[0], "expected": it[1], "chunks_of_first_run": it[2][0][0]})
-    recs = record_and_validate(ctx, ctx.pick(1200, 12000), ctx.violation, ctx.count)
     if recs:
         ctx.sample({"recorded_call": {k: recs[0][k] for k in ("c", "chunks", "variant")}})
     ctx.exhaustive = complete
@@ -459,7 +519,7 @@ def replay(ctx, obj):
         r = c["record"]
         rec = _record((r["id"], c["case"], r["chunks"], r["variant"]))
         spec, cfg = ctx.model(ctx.spec("array", "TensorTrace.tla"), {})
-        rej = ctx.tlc_validate(spec, [rec], cfg)
+        rej = ctx.tlc_validate(spec, [rec], cfg) if rec is not None else {}
         print("observed:", rec["obs"], "\nrejected:", rej)
         return bool(rej)
     case, exp = c["case"], c["expected"]
@@ -467,3 +527,104 @@ def replay(ctx, obj):
     cl = judge(exp, obs, got)
     print("case:", case, "\nchunks:", c["chunks"], "\nexpected:", exp, "\nobserved:", obs, got, "\nclause:", cl)
     return cl is not None
+
+
+# ------------------------------------------------------------------ selftest
+def selftest(ctx):
+    import copy
+    import random
+    import dask.array as da
+    import dask.array.einsumfuncs as E
+    import dask.array.routines as R
+    from ..arrayobs import source_mutant
+    from ..sidebyside import in_parallel
+    ok = True
+    rng = random.Random(7)
+    ritems, recs = record(random.Random(3), 100, "base")
+    (cases, chunkings), = in_parallel([enumerate_cases(ctx, OPS, "{<<2>>, <<3>>, <<2, 3>>, <<3, 2>>, <<2, 3, 2>>}",
+                                                       "{<<3>>, <<2, 3>>, <<3, 2>>, <<2, 2, 3>>}", False, "selftest")])
+
+    def attempt(ops, seed=5):
+        sigs = []
+        sub = [c for c in cases if c["c"]["op"] in ops]
+        if len(sub) > 60:
+            sub = random.Random(seed).sample(sub, 60)
+        replay_cases(_Rng(random.Random(seed)), sub, chunkings, 2, 0, 0.0,
+                     lambda sig, what, rp: sigs.append(sig), lambda k, n: None, lambda r: None)
+        return sigs
+
+    base = attempt(OPS) + attempt(["tensordot"], 6)
+    known = {"tensordot:negative-left-axis"}
+    print("selftest baseline (unchanged tree): %d violations on the case sample %s" % (len(base), sorted(set(base))))
+    ok &= set(base) <= known
+    mutants = [
+        ("dot contracts the last axis of b (b.ndim - 2 -> b.ndim - 1)", R, "dot", "(b.ndim - 2,)", "(b.ndim - 1,)", 1, ["dot"]),
+        ("tensordot(axes=n) contracts the first n axes of lhs", R, "tensordot", "tuple(range(lhs.ndim - axes, lhs.ndim))",
+         "tuple(range(0, axes))", 1, ["tensordotn"]),
+        ("matmul sums the wrong axis of the blockwise product (-2 -> -1)", R, "matmul", "_sum_wo_cat(out, axis=-2)", "_sum_wo_cat(out, axis=-1)", 1,
+         ["matmul"]),
+        ("outer flattens b in column-major order", R, "outer", "b = b.flatten()", "b = b.T.flatten()", 1, ["outer"]),
+        ("einsum aligns an ellipsis to the left", E, "parse_einsum_input", "ellipse_inds[-ellipse_count:]", "ellipse_inds[:ellipse_count]", 1,
+         ["einsum"]),
+        ("einsum builds the implicit output in reverse alphabetical order", E, "parse_einsum_input", "sorted(set(tmp_subscripts))",
+         "sorted(set(tmp_subscripts), reverse=True)", 2, ["einsum"]),
+        ("einsum forgets to sum the contracted axes when there is only one", E, "einsum", "if ncontract_inds > 0:", "if ncontract_inds > 1:", 1,
+         ["einsum"]),
+    ]
+    mrecs, mitems = [], []
+    for i, (name, mod, fn, old, new, cnt, ops) in enumerate(mutants):
+        with source_mutant(mod, fn, old, new, count=cnt, also=[da] if hasattr(da, fn) else []):
+            sigs = attempt(ops)
+            its, rs = record(random.Random(3), 60, "m%d-" % i)
+        mitems += its
+        mrecs.append((i, name, sigs, rs))
+    # recorded calls, corrupted by hand
+    good = next(r for r in recs if r["obs"]["raised"] == "" and len(r["obs"]["cells"]) >= 2 and len(r["obs"]["cshape"]) >= 1)
+
+    def corrupt(name, fn):
+        r = copy.deepcopy(good)
+        r["id"] = "c-" + name
+        fn(r)
+        return r
+
+    def bad_cell(r):
+        r["obs"]["cells"][-1] += 1
+
+    def bad_shape(r):
+        r["obs"]["cshape"][0] += 1
+
+    def bad_chunks(r):
+        r["obs"]["chunks"][0] = r["obs"]["chunks"][0] + [1]
+
+    def swapped_operand_axes(r):
+        r["c"]["shapes"] = [list(reversed(s)) for s in r["c"]["shapes"]]
+
+    def says_raised(r):
+        r["obs"]["raised"] = "ValueError"
+    hand = [(corrupt("untouched-copy", lambda r: None), False), (corrupt("corrupted-cell", bad_cell), True),
+            (corrupt("corrupted-shape", bad_shape), True), (corrupt("corrupted-lazy-chunks", bad_chunks), True),
+            (corrupt("claims-an-exception", says_raised), True)]
+    spec, cfg = ctx.model(ctx.spec("array", "TensorTrace.tla"), {})
+    allrecs = recs + [r for _i, _n, _s, rs in mrecs for r in rs] + [r for r, _w in hand]
+    rej = ctx.tlc_validate(spec, allrecs, cfg, timeout=1200)
+    byitem = {it[0]: it for it in ritems + mitems}
+
+    def sig_of(rid):
+        _id, case, chunks, _v = byitem[rid]
+        return classify(case, first_clause(rej[rid][0]), chunks)
+    base_rej = {sig_of(r["id"]) for r in recs if r["id"] in rej}
+    print("selftest baseline (unchanged tree): TLC rejects %d of %d recorded calls %s" % (len([r for r in recs if r["id"] in rej]), len(recs),
+                                                                                         sorted(base_rej)))
+    for i, name, sigs, rs in mrecs:
+        new = sorted(set(s for s in sigs if s not in set(base) | known))
+        trej = sorted({sig_of(r["id"]) for r in rs if r["id"] in rej} - base_rej)
+        print("selftest mutant [%s]: replay %s (%d violations, e.g. %s); recorded calls %s (%s)"
+              % (name, "DETECTED" if new else "MISSED", len(sigs), new[:2], "REJECTED" if trej else "accepted", trej[:2]))
+        ok &= bool(new)
+    ok &= any(sorted({sig_of(r["id"]) for r in rs if r["id"] in rej} - base_rej) for _i, _n, _s, rs in mrecs)
+    for r, want in hand:
+        got = r["id"] in rej
+        print("selftest trace [%s]: %s %s" % (r["id"][2:], "rejected" if got else "accepted", rej.get(r["id"], "")))
+        ok &= got == want
+    print("selftest C31:", "OK" if ok else "FAILED")
+    return 0 if ok else 1
